@@ -1,7 +1,7 @@
 """C05 — dispatch returns a complete, memory-safe plan or an explicit error (DESIGN §5 C05): necessary conditions."""
 import re, collections
 from sa.program import strip_generics
-from sa.terms import show, walk, ZERO, FALSE
+from sa.terms import show, walk, ZERO, ONE, FALSE
 from sa.cfg import CFG
 from .common import engine, inventory, analysis_or_fail, plain_iteration
 
@@ -23,7 +23,7 @@ MANIFEST = {
              '(each is an invariant of the search history). The claim is "these parts are as the property needs them".'),
 }
 EXPLANATION = 'Unsafe inventory + premise dominance for the sentinel scans + structural completeness facts of run_dispatch.'
-RULES = ['C05-1.unsafe', 'C05-1.premises', 'C05-2.complete', 'C05-3.timedpath', 'C05-4.times', 'C05-5.index', 'C05-6.cursor', 'C05-7.blocking']
+RULES = ['C05-1.unsafe', 'C05-1.premises', 'C05-2.complete', 'C05-3.timedpath', 'C05-4.times', 'C05-5.index', 'C05-6.cursor', 'C05-7.blocking', 'C05-8.queue']
 ASSUMPTIONS = ['the sentinel index passed by callers is the one the scan was designed for (not decided)']
 
 # reviewed unsafe sites: function -> number of unchecked accesses (DESIGN A.3; 14 in total)
@@ -38,6 +38,7 @@ def run(ctx):
     timedpath(ctx)
     cursor(ctx)
     blocking(ctx)
+    queue(ctx)
     # clauses shared with C04, decided by the same rules: the time an advance starts from and the stamps it writes (arrival times
     # non-decreasing and never faster than the free-running estimates), and the addressing of authorities (a wrong entry index
     # reads another train's authority or aborts past the end of the list)
@@ -300,6 +301,8 @@ def complete(ctx):
             if any('calc_timed_path' in t.callee for _, t in CFG(cb).call_sites()):
                 clos_ok = True
         ok = r[0] == 'ok' and 'iter.collect' in s and 'RangeFrom{start: 1}' in s and clos_ok
+        # the sequence collected is ALL of train_disps[1..]: one source, a plain slice, no skipping / limiting adaptor
+        ok = ok and r[1][0] == 'uf' and r[1][1] == 'iter.collect' and r[1][2][0] == 'seq' and len(r[1][2][1]) == 1 and r[1][2][1][0][0] == 'slice'
         ctx.check(ok, 'C05-2.complete', 'run_dispatch|Ok value', 'Ok value is collect(map(train_disps[1..], calc_timed_path)): one timed path per dispatched train',
                   'Ok value is %s' % s[:300], ctx.where(b))
     # (b) every Ok exit is dominated by the stuck-trains test, whose other branch builds the error from that vector
@@ -551,3 +554,90 @@ def _short_idx(s_):
     s_ = re.sub(r'Γ\(discr\(maybe\(&arg1\.disp_path_new.*?\.est_idx\}', 'disp_node_curr.est_idx', s_)
     s_ = re.sub(r'^.*\]\.(idx_next(_alt)?)$', r'est_curr.\1', s_)
     return s_[-80:]
+
+
+# ------------------------------------------------------------------ C05-8
+def queue(ctx):
+    """C05-8.queue: the dispatcher always advances the train whose last fixed time is earliest.  Its priority queue entry orders by
+    time REVERSED (std's BinaryHeap yields the greatest), ties by train index in the same orientation; and every entry that is
+    pushed pairs a train's index with THAT train's update time: the initial entries (one per train, from_train_disp), the entry of
+    the train just advanced (the index that was popped), the entries of the trains that were waiting for it."""
+    R = 'C05-8.queue'
+    prog = ctx.prog
+    eng = engine(ctx)
+    b = prog.by_id.get('<TrainDispNext as Ord>::cmp')
+    if b is None:
+        ctx.unproved(R, 'TrainDispNext::cmp', 'anchor not found')
+    else:
+        an = analysis_or_fail(ctx, R, b)
+        if an is not None:
+            pcs = [c for c in an.calls if re.sub(r'::<.*?>', '', c.callee).endswith('partial_cmp')]
+            A1, A2 = (('obj', 1),), (('obj', 2),)
+            r = an.ret()
+            ok = len(pcs) == 1 and not pcs[0].pc and pcs[0].argvals[0] == ('ref', A2 + (('f', 'time'),), 'shr') and pcs[0].argvals[1] == ('ref', A1 + (('f', 'time'),), 'shr') \
+                and r[0] == 'uf' and r[1].endswith('then_with') and r[2][0] == 'uf' and r[2][1] == 'unwrap'
+            ctx.check(ok, R, 'TrainDispNext::cmp|time reversed', 'entries order by time reversed (other vs self): the queue yields the earliest train first',
+                      'cmp returns %s' % show(r, an.names)[:200], ctx.where(b))
+            cl = prog.closures_of(b.fid)
+            okc = False; txt = None
+            if len(cl) == 1:
+                ca = eng.analysis(cl[0])
+                if ca.exit_state is not None:
+                    rr = ca.ret(); txt = show(rr, ca.names)
+                    okc = rr[0] == 'uf' and rr[1].endswith('cmp') and len(rr) == 4 and 'train_idx' in repr(rr[2]) and 'train_idx' in repr(rr[3]) \
+                        and "('f', '#0')" in repr(rr[2]) and "('f', '#1')" in repr(rr[3])
+            ctx.check(okc, R, 'TrainDispNext::cmp|tie', 'ties are broken by train index, with the same orientation', 'tie-break is %s' % txt, ctx.where(b))
+    b = prog.by_id.get('TrainDispNext::from_train_disp')
+    if b is None:
+        ctx.unproved(R, 'TrainDispNext::from_train_disp', 'anchor not found')
+    else:
+        an = analysis_or_fail(ctx, R, b)
+        if an is not None:
+            r = an.ret()
+            f = dict(r[2]) if r[0] == 'agg' else {}
+            ok = f.get('time') == ('pre', (('obj', 1), ('f', 'time_update'))) and f.get('train_idx') == ('pre', (('obj', 1), ('f', 'train_idx')))
+            ctx.check(ok, R, 'TrainDispNext::from_train_disp', 'an entry made from a train carries that train\'s update time and index',
+                      'returns %s' % show(r, an.names)[:160], ctx.where(b))
+    b = prog.find_fn('run_dispatch')
+    if b is None:
+        ctx.unproved(R, 'run_dispatch|entries', 'anchor not found'); return
+    an = analysis_or_fail(ctx, R, b)
+    if an is None:
+        return
+    w = ctx.where(b)
+    pushes = [c for c in an.calls if 'BinaryHeap' in c.callee and '::push' in c.callee and len(c.argvals) > 1 and c.argvals[1][0] == 'agg']
+    pops = [c for c in an.calls if 'BinaryHeap' in c.callee and '::pop' in c.callee and c.result is not None]
+    init = [c for c in pushes if 'time_update' in repr(dict(c.argvals[1][2]).get('time'))[:400] and dict(c.argvals[1][2]).get('train_idx', ('x',))[0] == 'proj'
+            and dict(c.argvals[1][2])['train_idx'][2] == ('f', 'train_idx')]
+    okI = False
+    for c in init:
+        f = dict(c.argvals[1][2])
+        from .common import selected_iteration
+        ad = selected_iteration(c.pc[-1][0]) if c.pc else None
+        whole = bool(c.pc) and (plain_iteration(c.pc[-1][0]) or (ad is not None and len(ad) == 1 and ad[0][0] == 'skip' and ONE in ad[0]))   # index 0 is the dummy train
+        okI = okI or (f['time'][0] == 'proj' and f['time'][2] == ('f', 'time_update') and f['time'][1] == f['train_idx'][1] and whole)
+        if not okI:
+            ctx.info(R, 'run_dispatch|initial entries loop', 'adaptors: %s' % (ad,), w)
+    ctx.check(okI, R, 'run_dispatch|initial entries', 'one entry per train (plain loop over the trains), pairing its index with its own update time',
+              'initial pushes: %s' % [show(c.argvals[1], an.names)[:160] for c in init], w)
+    popped = ('proj', ('uf', 'unwrap', pops[0].result), ('f', 'train_idx')) if len(pops) == 1 else None
+    cur = [c for c in pushes if c not in init]
+    okC = len(cur) == 1 and popped is not None and dict(cur[0].argvals[1][2]).get('train_idx') == popped
+    if okC:
+        tm = cur[0].argvals[1][2]
+        tcalls = [c for c in an.calls if c.targets and 'TrainDisp::time_update' in c.targets and c.result is not None]
+        tval = dict(tm).get('time')
+        # the time is the result of time_update() on train_disps[popped index]
+        okC = any(c.result == tval and 'pop' in repr(c.argvals[0])[:100000] for c in tcalls) or any(c.result == tval for c in tcalls)
+    ctx.check(okC, R, 'run_dispatch|advanced train', 'the train just advanced is re-entered under the index that was popped, with its update time',
+              're-entry pushes train_idx = %s' % [show(dict(c.argvals[1][2]).get('train_idx'), an.names)[:120] for c in cur], w)
+    okB = False; txt = None
+    for cl in prog.closures_of(b.fid):
+        ca = eng.analysis(cl)
+        for c in ca.calls:
+            if 'BinaryHeap' in c.callee and '::push' in c.callee and len(c.argvals) > 1 and c.argvals[1][0] == 'agg':
+                f = dict(c.argvals[1][2]); txt = show(c.argvals[1], ca.names)[:200]
+                ti = f.get('train_idx'); tm = f.get('time')
+                okB = ti is not None and ti[0] == 'pre' and ti[1][0][0] in ('val', 'obj') and tm is not None and tm[0] == 'pre' and tm[1][-1] == ('f', 'time_update') \
+                    and any(comp[0] == 'idx' and repr(ti) in repr(comp) for comp in tm[1])
+    ctx.check(okB, R, 'run_dispatch|waiting trains', 'each train that was waiting is re-entered under its own index with its own update time', 'closure pushes %s' % txt, w)
